@@ -8,16 +8,16 @@ import "github.com/mlange-42/ark/ecs/stats"
 // freshly computed ones, whatever happened (and whenever Stats was called) in between.
 
 type vStatsCopy struct {
-	ent      stats.Entities
-	mem      int
-	memUsed  int
-	filters  int
-	obs      int
-	locked   bool
-	ncomp    int
-	arch     []stats.Archetype
-	tables   [][]stats.Table
-	compIDs  [][]uint8
+	ent     stats.Entities
+	mem     int
+	memUsed int
+	filters int
+	obs     int
+	locked  bool
+	ncomp   int
+	arch    []stats.Archetype
+	tables  [][]stats.Table
+	compIDs [][]uint8
 }
 
 func vCopyStats(s *stats.World) *vStatsCopy {
